@@ -1,5 +1,6 @@
 import PacketVerif.Drv.Checksum
 import PacketVerif.Drv.Views
+import PacketVerif.Drv.Encode
 open PV
 
 /-- dispatch one protocol line to the module that knows the op -/
@@ -9,7 +10,8 @@ def dispatch (line : String) : String :=
   | cmd :: args =>
     let hs : List (String → List String → Option String) := [
       Drv.Checksum.handle,
-      Drv.Views.handle
+      Drv.Views.handle,
+      Drv.Encode.handle
     ]
     match hs.findSome? (fun h => h cmd args) with
     | some r => r
